@@ -187,9 +187,6 @@ def run(chk):
     ]
     known = c08.load_findings(chk, "C09", c08.PROPOSED_C09)
     c08f = vlib.known_findings("C08")
-    if not c08f:   # TEMPORARY fallback until the lead merges build/kf-C08.json (drop then)
-        p = os.path.join(vlib.VERIF, "build", "kf-C08.json")
-        c08f = json.load(open(p)) if os.path.exists(p) else []
     c08_known = {f["id"] for f in c08f if f.get("status") == "known"}
     res = chk.proof_stage("C09", allow_axioms=())
     binary = vlib.build_harness("debug")
